@@ -6,11 +6,33 @@ func init() {
 	Register("C06", []Target{
 		{Pkg: "time", Func: "Now", Oracle: true},
 		{Pkg: "crypto/x509", Type: "Certificate", Opaque: true, Views: map[string]string{
-			"NotBefore": "time.Time", "NotAfter": "time.Time", "Subject": "string", "Subject.String()": "string"}},
+			"NotBefore": "Z", "NotAfter": "Z", "Subject": "string", "Subject.String()": "string"}},
+		{Pkg: "time", Func: "Time.Format", Oracle: true},
 		{Pkg: v, Func: "verifyExpiry"},
 		{Pkg: v, Func: "isTSATrustStoreInPolicy"},
 		{Pkg: v, Func: "checkRevocationResults"},
 		{Pkg: v, Func: "revocationFinalResult"},
+		// the countersignature step: what the dependencies decide is an oracle
+		{Pkg: "github.com/notaryproject/tspclient-go", Type: "SignedToken", Opaque: true},
+		{Pkg: "github.com/notaryproject/tspclient-go", Type: "TSTInfo", Opaque: true},
+		{Pkg: "github.com/notaryproject/tspclient-go", Func: "ParseSignedToken", Oracle: true},
+		{Pkg: "github.com/notaryproject/tspclient-go", Func: "(*SignedToken).Info", Oracle: true},
+		{Pkg: "github.com/notaryproject/tspclient-go", Func: "(*SignedToken).Verify", Oracle: true},
+		{Pkg: "github.com/notaryproject/tspclient-go", Func: "(*TSTInfo).Validate", Oracle: true},
+		{Pkg: "time", Func: "Time.Add", Oracle: true},
+		{Pkg: "github.com/notaryproject/tspclient-go", Func: "(*Timestamp).BoundedBefore"},
+		{Pkg: "github.com/notaryproject/tspclient-go", Func: "(*Timestamp).BoundedAfter"},
+		{Pkg: "github.com/notaryproject/tspclient-go", Func: "(*Timestamp).Format", Oracle: true},
+		{Pkg: "github.com/notaryproject/notation-core-go/x509", Func: "ValidateTimestampingCertChain", Oracle: true},
+		// not opaque: x509.VerifyOptions needs a zero value for its *CertPool fields
+
+		{Pkg: "crypto/x509", Func: "NewCertPool", Oracle: true},
+		{Pkg: "crypto/x509", Func: "(*CertPool).AddCert", Oracle: true},
+		{Pkg: ".../internal/container", Func: "New"},
+		{Pkg: ".../internal/container", Func: "Set.Add"},
+		{Pkg: ".../internal/container", Func: "Set.Contains"},
+		{Pkg: v, Func: "loadX509TrustStoresWithType"},
+		{Pkg: v, Func: "loadX509TSATrustStores"},
 		{Pkg: v, Func: "verifyTimestamp"},
 		{Pkg: v, Func: "verifyAuthenticTimestamp"},
 	})
